@@ -274,6 +274,8 @@ class build_hank_cov_R(_BuildHank):
 
 @register
 class build_hank_dat(_BuildHank):
+    term_level = True      # cells / terms over opaque kernels (qr, solve): see runner
+
     name = "dat"
     method = "dat"
 
